@@ -147,6 +147,15 @@ def gen_mixfit(g, kind=None, thorough=False):
         if kind == 'gmm' and F > 0:
             ct = 'full'
         opts['covariance_type'] = ct
+        if g.coin(0.15):
+            Dg = E if kind == 'gcacgmm' else D
+            glead = lead if kind == 'gmm' else []
+            if ct == 'full':
+                a['fixed_covariance'] = _mk(g, 'spd', glead + [K, Dg, Dg], load=0.3)
+            elif ct == 'diagonal':
+                a['fixed_covariance'] = _mk(g, 'uniform', glead + [K, Dg], low=0.3, high=2.0)
+            else:
+                a['fixed_covariance'] = _mk(g, 'uniform', glead + [K], low=0.3, high=2.0)
     if integration:
         if g.coin(0.3):
             opts['inline_permutation_alignment'] = True
@@ -201,6 +210,18 @@ def gen_distfit(g):
         a['opts']['max_concentration'] = float(g.choice([5, 50, 500]))
         a['opts']['min_concentration'] = float(g.choice([1e-10, 1.0]))
     a['repetition'] = bool(sk == 'int' and not lead and g.coin(0.7))
+    if kind == 'bingham' and D >= 3 and g.coin(0.3):
+        # weighted scatter with two nearly equal eigenvalues: observations on
+        # an orthonormal basis, weights w, w + delta, rest
+        N = 2 * D
+        delta = float(10 ** g.rng.uniform(-5, -3))
+        w = g.rng.uniform(0.8, 1.2, size=D)
+        w[1] = w[0] + delta
+        a['y'] = {'kind': 'basis_rows', 'shape': [N, D], 'seed': g.seed(),
+                  'layout': 'C'}
+        a['saliency'] = {'kind': 'explicit', 'shape': [N], 'seed': 0,
+                         'values': [float(w[n % D]) for n in range(N)]}
+        a['repetition'] = False
     return a
 
 
@@ -278,8 +299,10 @@ def generate(run_seed, tier='quick'):
     if g.coin(0.3):
         tk['dist:watson'] = g.choice([{'max_concentration': 100},
                                       {'spline_markers': 300}])
-    if g.coin(0.2):
-        tk['cbmm'] = {'max_concentration': 200.0}
+    if g.coin(0.3):
+        tk['cbmm'] = {'max_concentration': float(g.choice([20.0, 50.0, 200.0]))}
+    if g.coin(0.3):
+        tk['dist:bingham'] = {'max_concentration': float(g.choice([20.0, 50.0]))}
     return {'prop': 'C08', 'ops': program_ops, 'trainer_kwargs': tk,
             'rng_seed': int(rng.randint(2 ** 31)), 'tier': tier}
 
@@ -335,7 +358,29 @@ def _eps(kind, opts):
     return opts.get('affiliation_eps', 0)
 
 
-def _component_check(tr, kind, model, z_obs, emb, gamma, qf, opts, tk):
+def _check_gaussian_fixed(gauss, y, gamma, ctype, fixed_cov):
+    if fixed_cov is None:
+        return S.check_gaussian(gauss, y, gamma, ctype)
+    cov = np.asarray(gauss.covariance)
+    if cov.shape != np.shape(fixed_cov) or np.max(np.abs(cov - fixed_cov)) > 0:
+        return 'fixed_covariance was given but the model does not carry it'
+    # mean: compare through a stand-in whose covariance is the spec's own
+    lead = gamma.shape[:-2]
+    K = gamma.shape[-2]
+    mean = np.asarray(gauss.mean)
+    for idx in np.ndindex(*lead):
+        for k in range(K):
+            g = gamma[idx][k]
+            mu = (g[:, None] * y[idx]).sum(0) / g.sum()
+            d = float(np.max(np.abs(mean[idx + (k,)] - mu)))
+            if not d <= S.TOL * max(1.0, float(np.max(np.abs(mu)))):
+                return f'Gaussian mean of class {k} at {idx} differs from the ' \
+                       f'weighted sample mean by {d:.3e}'
+    return None
+
+
+def _component_check(tr, kind, model, z_obs, emb, gamma, qf, opts, tk,
+                     fixed_cov=None):
     """R1 for the component distribution(s) of one reported step."""
     if kind == 'cacgmm':
         return S.check_cacg(model.cacg, z_obs, gamma, qf, opts)
@@ -351,8 +396,9 @@ def _component_check(tr, kind, model, z_obs, emb, gamma, qf, opts, tk):
                                max_concentration=mk.get('max_concentration', np.inf),
                                stats=tr.count)
     if kind == 'gmm':
-        return S.check_gaussian(model.gaussian, z_obs, gamma,
-                                opts.get('covariance_type', 'full'))
+        return _check_gaussian_fixed(model.gaussian, z_obs, gamma,
+                                     opts.get('covariance_type', 'full'),
+                                     fixed_cov)
     if kind == 'vmfmm':
         return S.check_vmf(model.vmf, z_obs, gamma,
                            opts.get('min_concentration', 1e-10),
@@ -365,8 +411,9 @@ def _component_check(tr, kind, model, z_obs, emb, gamma, qf, opts, tk):
         g2 = np.reshape(np.transpose(gamma, (1, 0, 2)), (K, F * T))
         e2 = np.reshape(emb, (F * T, emb.shape[-1]))
         if kind == 'gcacgmm':
-            return S.check_gaussian(model.gaussian, e2, g2,
-                                    opts.get('covariance_type', 'spherical'))
+            return _check_gaussian_fixed(model.gaussian, e2, g2,
+                                         opts.get('covariance_type', 'spherical'),
+                                         fixed_cov)
         return S.check_vmf(model.vmf, e2, g2,
                            opts.get('min_concentration', 1e-10),
                            opts.get('max_concentration', 500))
@@ -411,6 +458,10 @@ def run_mixfit(tr, op, program):
         extra['source_activity_mask'] = sam
     if 'aligner' in op:
         extra['inline_permutation_aligner'] = catalogue.make_aligner(op['aligner'])
+    fixed_cov = None
+    if 'fixed_covariance' in op:
+        fixed_cov = data.make(op['fixed_covariance'])
+        extra['fixed_covariance'] = fixed_cov
     # what the component M-steps see as observations
     if kind in models.COMPLEX_OBS or kind == 'vmfmm':
         z = S.unit_rows(np.asarray(obs))
@@ -544,9 +595,13 @@ def run_mixfit(tr, op, program):
         msg = S.check_weights(w, aff, sal_b, wca, slack=slack)
         if msg is None:
             msg = _component_check(tr, kind, model, z, emb, gamma,
-                                   qf if qf is not None else None, opts, tr.tk)
+                                   qf if qf is not None else None, opts, tr.tk,
+                                   fixed_cov)
         if msg:
-            tr.viol('R1', entry, f'step {i}: ' + msg, step=i, **fault_note)
+            oracle = 'R1'
+            if msg.startswith('NEARDUP: '):
+                oracle, msg = 'R1-bingham-near-duplicate-scatter', msg[9:]
+            tr.viol(oracle, entry, f'step {i}: ' + msg, step=i, **fault_note)
             return
         tr.count('mstep_comparisons')
         tr.compared += 1
@@ -715,7 +770,10 @@ def run_distfit(tr, op, program):
     fault_note = {'fault': fault, 'fault_fired': list(fired) if fired else None}
     msg = _dist_check(tr, kind, model, np.asarray(y), gamma, op['opts'])
     if msg:
-        tr.viol('R1', entry, msg, **fault_note)
+        oracle = 'R1'
+        if msg.startswith('NEARDUP: '):
+            oracle, msg = 'R1-bingham-near-duplicate-scatter', msg[9:]
+        tr.viol(oracle, entry, msg, **fault_note)
         return
     tr.compared += 1
     tr.count('standalone_estimator_comparisons')
@@ -780,7 +838,10 @@ def _dist_check(tr, kind, model, y, gamma, opts):
     if kind == 'bingham':
         ns = _NS(covariance_eigenvectors=np.asarray(model.covariance_eigenvectors)[..., None, :, :],
                  covariance_eigenvalues=np.asarray(model.covariance_eigenvalues)[..., None, :])
-        return S.check_bingham(ns, S.unit_rows(y), gamma)
+        mk = tr.tk.get('dist:bingham') or {}
+        return S.check_bingham(ns, S.unit_rows(y), gamma,
+                               max_concentration=mk.get('max_concentration', np.inf),
+                               stats=tr.count)
     raise ValueError(kind)
 
 
